@@ -32,11 +32,15 @@ KANI = dict(
         modules=[
             ('src/state.rs', 'state_v4.rs', 'verif_kani'),
             ('src/v5/state.rs', 'state_v5.rs', 'verif_kani'),
+            ('src/mqttbytes/mod.rs', 'varint.rs', 'verif_kani_varint', dict(COPY='rumqttc::mqttbytes', LEN_LEN='spec_len_len', CHECK_MAX='max as usize', SIZE_ERR_PAT='Error::PayloadSizeLimitExceeded(_)')),
+            ('src/v5/mqttbytes/v5/mod.rs', 'varint.rs', 'verif_kani_varint', dict(COPY='rumqttc::v5::mqttbytes::v5', LEN_LEN='len_len', CHECK_MAX='Some(max)', SIZE_ERR_PAT='Error::PayloadSizeLimitExceeded { .. }')),
         ],
     ),
     rumqttd=dict(
         modpath=_modpath_c,
         modules=[
+            ('src/protocol/v4/mod.rs', 'varint.rs', 'verif_kani_varint', dict(COPY='rumqttd::protocol::v4', LEN_LEN='len_len', CHECK_MAX='max as usize', SIZE_ERR_PAT='Error::PayloadSizeLimitExceeded(_)')),
+            ('src/protocol/v5/mod.rs', 'varint.rs', 'verif_kani_varint', dict(COPY='rumqttd::protocol::v5', LEN_LEN='len_len', CHECK_MAX='max as usize', SIZE_ERR_PAT='Error::PayloadSizeLimitExceeded(_)')),
         ],
     ),
 )
@@ -60,6 +64,12 @@ _CLIENT_STATE_TRUSTED = [
 ]
 
 PROPS = dict(
+    C06=dict(
+        verus=['acklog', 'tracker'], kani=[],
+        scope='rumqttd AckLog::{new,connack,suback,puback,pubrec,pubrel,pubcomp,pingresp,unsuback}: each appends exactly the given ack at the back of the reply queue (FIFO), pubrec holds the QoS 2 publish, pubcomp releases the oldest held publish exactly once; Tracker::try_ready wake-up table',
+        residual='the per-packet registration in Router::handle_device_payload (which ack is registered for which packet, one SUBACK code per filter) and ack_device_data (flush to the right Outgoing) are Router methods: Kani cannot build a Router (compiler ICE), Verus cannot take the bodies (drain iterators, closures, retain)',
+        assumptions=['stand-in declarations for the packet structs AckLog only moves (never inspects)'],
+    ),
     C07=dict(
         verus=[], kani=['rumqttc'], native=['rumqttc'],
         scope='rumqttc MqttState v4+v5: next_pkid (complete: all limits), outgoing_publish / subscribe / unsubscribe / pubrel id range and freshness, inflight counter exact (inflight == occupied slots + pending releases), collision only while the id is held, v5 CONNACK receive-maximum',
